@@ -169,7 +169,7 @@ def check_wave(ctx, viol):
                 jobs.append({'op': 'wave', 'fn': fn, 'kind': 'quantity', 'unit': unit, 'values': [gen_wavelength(rng, unit, hi=1990.0) for _ in range(4)]})
                 jobs.append({'op': 'wave', 'fn': fn, 'kind': 'quantity_scalar', 'unit': unit, 'values': [gen_wavelength(rng, unit) for _ in range(6)]})
     # dense round trips (direct behavioural check, 1e-6 A)
-    ng = ctx.n(200000, 2000000)
+    ng = ctx.n(270000, 2000000)      # (more than 2**18 points in one array call)
     jobs.append({'op': 'roundtrip', 'lo': 1900.0, 'hi': 2100.0, 'n': ng // 4, 'log': False})
     jobs.append({'op': 'roundtrip', 'lo': 100.0, 'hi': 3.0e5, 'n': ng, 'log': True})
     jobs.append({'op': 'roundtrip', 'lo': 2000.0, 'hi': 12000.0, 'n': ng // 2, 'log': False})
@@ -182,6 +182,13 @@ def check_wave(ctx, viol):
         for i, r in enumerate(o['results']):
             results[k + i * nb] = r
     ctx.coverage['pydl_file'] = outs[0]['pydl_file']
+    # process-global settings (numpy error state and print options, astropy.io.fits.conf, os.environ): snapshot before `import pydl`,
+    # after it, and after all the calls of the process
+    for o in outs:
+        for key, when in (('globals_changed_by_import', 'importing pydl'), ('globals_changed_by_calls', 'calling airtovac / vactoair')):
+            for d in o.get(key) or []:
+                viol('C19:process-global:%s' % d['what'], '%s changed the process-global %s: %s' % (when, d['what'], d['changed']),
+                     {'kind': 'failing-input', 'input': {'when': when, 'what': d['what']}, 'changed': d['changed']}, True)
     terms, meta = [], []
     kinds = {}
     grid = 0
@@ -265,6 +272,8 @@ def check_wave(ctx, viol):
 # ----------------------------------------------------------------------------
 
 OFFSETS = [F(-42, 1000), F(36, 1000), F(15, 1000), F(13, 1000), F(-2, 1000)]
+# spellings of a boolean keyword -> its truth value ('omit': the keyword is not given; every default is False)
+BOOL_TOKENS = {'omit': False, 'False': False, '0': False, 'None': False, 'npFalse': False, 'True': True, '1': True, 'npTrue': True}
 
 
 def run_lemmas(ctx, lemmas, tag, nshards):
@@ -310,19 +319,42 @@ def check_flux(ctx, viol):
             else:
                 vals = [rng.choice([C.dyadic(rng, 0.01, 100, 10), C.dyadic(rng, 0.01, 100, 10), C.dyadic(rng, 0.01, 100, 10), 0.0]) for _ in range(rows * 5)]
             jobs.append({'op': 'flux2ab', 'mode': mode, 'flux': vals})
+    # every spelling of the two boolean keywords: omitted, False, 0, None, numpy.bool_(False), True, 1, numpy.bool_(True) -- each keyword
+    # alone, both together, and positionally.  Documented meaning: a keyword is "set" when it is true; magnitudes take precedence.
+    kwjobs = [{'magnitude': 'omit', 'ivar': t} for t in BOOL_TOKENS] + [{'magnitude': t, 'ivar': 'omit'} for t in BOOL_TOKENS if t != 'omit']
+    both = [(a_, b_) for a_ in BOOL_TOKENS for b_ in BOOL_TOKENS if a_ != 'omit' and b_ != 'omit']
+    kwjobs += [{'magnitude': a_, 'ivar': b_} for a_, b_ in rng.sample(both, ctx.n(8, 49))]
+    kwjobs += [{'magnitude': a_, 'ivar': b_, 'positional': True} for a_, b_ in rng.sample(both, ctx.n(3, 12))]
+    for kw in kwjobs:
+        positional = kw.pop('positional', False)
+        mode = 'mag' if BOOL_TOKENS[kw['magnitude']] else 'ivar' if BOOL_TOKENS[kw['ivar']] else 'flux'
+        if mode == 'mag':
+            vals = [C.dyadic(rng, 10, 28, 8) for _ in range(5)]
+        else:
+            vals = [C.dyadic(rng, 0.5, 4000, 8) for _ in range(5)]
+        jobs.append({'op': 'flux2ab', 'mode': mode, 'flux': vals, 'kw': kw, 'positional': positional})
+    rng.shuffle(jobs)
     out = C.run_impl('c19_impl.py', jobs)['results']
     lemmas, meta = [], []
     nvals = 0
     per_band = {}
     for job, r in zip(jobs, out):
         mode = job['mode']
-        rep0 = {'kind': 'failing-input', 'input': {'mode': mode, 'flux': job['flux']}, 'impl_result': r}
+        rep0 = {'kind': 'failing-input', 'input': {'mode': mode, 'flux': job['flux'], 'kw': job.get('kw'), 'positional': job.get('positional')},
+                'impl_result': r}
+        kwtxt = '' if job.get('kw') is None else ' called with %s%s' % (
+            ', '.join('%s=%s' % (k_, v_) for k_, v_ in job['kw'].items() if v_ != 'omit') or 'no keyword', ' (positional)' if job.get('positional') else '')
         if 'err' in r:
-            viol('C19:flux2ab:%s:%s' % (mode, r['err']), 'sdssflux2ab (%s) raised %s' % (mode, r['err']), rep0, True)
+            viol('C19:flux2ab:%s:%s' % (mode, r['err']), 'sdssflux2ab (%s)%s raised %s' % (mode, kwtxt, r['err']), rep0, True)
             continue
         if not r['input_unchanged'] or r['same_object']:
             viol('C19:flux2ab:input-modified', 'sdssflux2ab modified (or returned) its input array', rep0, True)
+        if r.get('inplace_same') is False:
+            viol('C19:flux2ab:stale-after-inplace-change', 'sdssflux2ab called again on the same array after the caller changed it in place (+= 0.5) does not '
+                 'return what it returns for a fresh copy of that array', rep0, True)
         rows = len(job['flux']) // 5
+        # (keyword-spelling jobs: all five bands get the direct checks, two of them an enclosure lemma)
+        lemma_bands = set(range(5)) if job.get('kw') is None else set(rng.sample(range(5), 2))
         if r['shape'] != [rows, 5]:
             viol('C19:flux2ab:shape', 'sdssflux2ab returned shape %s' % r['shape'], rep0, True)
             continue
@@ -340,11 +372,18 @@ def check_flux(ctx, viol):
                     per_band.setdefault((mode, b), []).append(y / x)
                 elif y != 0.0:
                     viol('C19:flux2ab:zero', 'sdssflux2ab (%s) maps 0 to %r' % (mode, y), rep0, True)
+                off_ = float(OFFSETS[b])
+                want_ = {'flux': x * 10 ** (-off_ / 2.5), 'mag': x + off_, 'ivar': x / (10 ** (-off_ / 2.5)) ** 2}[mode]
+                if abs(want_ - y) > 1e-9 * max(abs(y), 1e-300):
+                    viol('C19:flux2ab:%s:documented-offset' % mode, 'sdssflux2ab (%s form)%s band %d: %r -> %r, the documented AB offset gives %r'
+                         % (mode, kwtxt, b, x, y, want_), dict(rep0, band=b, value=x, output=y, expected=want_), True)
+                if b not in lemma_bands:
+                    continue
                 spec = {'flux': 'ab_flux', 'mag': 'ab_mag', 'ivar': 'ab_ivar'}[mode]
                 tol = rlit(F(1, 10 ** 12) * abs(F(y)) + F(1, 10 ** 300))
                 lemmas.append('Lemma f%d : Rabs (%s %d%%nat %s - %s) <= %s.\nProof. unfold %s, ab_offset, pow10. interval with (i_prec 80). Qed.'
                               % (len(lemmas), spec, b, rlit(x), rlit(y), tol, spec))
-                meta.append((mode, b, x, y))
+                meta.append((mode, b, x, y, kwtxt, job.get('kw'), job.get('positional')))
     # consistency of the three forms, from the observed per-band factors
     fac = {}
     for (mode, b), vals in per_band.items():
@@ -368,15 +407,16 @@ def check_flux(ctx, viol):
         if good:
             continue
         nfail += 1
-        mode, b, x, y = meta[k]
+        mode, b, x, y, kwtxt, kw, positional = meta[k]
         off = float(OFFSETS[b])
         want = {'flux': x * 10 ** (-off / 2.5), 'mag': x + off, 'ivar': x / (10 ** (-off / 2.5)) ** 2}[mode]
         real = abs(want - y) > 1e-9 * max(abs(y), 1e-300)
         viol('C19:flux2ab:%s:%s' % (mode, 'property' if real else 'unproved'),
-             'sdssflux2ab (%s) band %d: %r -> %r, documented AB offset gives %r' % (mode, b, x, y, want),
+             'sdssflux2ab (%s form)%s band %d: %r -> %r, documented AB offset gives %r' % (mode, kwtxt, b, x, y, want),
              {'kind': 'failing-input' if real else 'broken-correspondence', 'item': 'enclosure vs Spec.ab_*',
-              'input': {'mode': mode, 'band': b, 'value': x}, 'output': y, 'expected': want, 'coq_lemma': lemmas[k]}, real)
-    return {'values': nvals, 'n_lemmas': len(lemmas), 'failures': nfail, 'coq_s': secs,
+              'input': {'mode': mode, 'band': b, 'value': x, 'kw': kw, 'positional': positional}, 'output': y, 'expected': want,
+              'coq_lemma': lemmas[k]}, real)
+    return {'values': nvals, 'n_lemmas': len(lemmas), 'failures': nfail, 'coq_s': secs, 'keyword_spelling_jobs': len(kwjobs),
             'sample_lemma': lemmas[0] if lemmas else None, 'factors': {'%s:%d' % k: v for k, v in fac.items()}}
 
 
@@ -538,11 +578,16 @@ def mask_q(v):
 
 
 
+LAYOUTS = ['F', 'T', 'strided', 'rowstrided', 'rev', 'revrows', 'Frev']
+
+
 def gen_filter_job(ctx, small, direction=None, wave=None, cover=None, dtype=None, edge=None, ends=False, mask_dtype=None,
-                   mask_style=None, row_kinds=None):
+                   mask_style=None, row_kinds=None, layout=None, tiny=None):
     rng = ctx.rng
     nT = 3 if ends else (len(row_kinds) if row_kinds else rng.randint(1, 3))
     nx = rng.randint(24, 48) if small else rng.randint(300, 1200)
+    if tiny:
+        nx = tiny       # 5 pixels: 4 differences for the 4 coefficients of the pixel-width fit (exactly determined)
     kind = cover or rng.choice(['full', 'full', 'blue', 'red', 'outside'])
     lam_lo, lam_hi = {'full': (3000.0, 11000.0), 'blue': (3000.0, 5200.0), 'red': (6500.0, 11500.0), 'outside': (12000.0, 20000.0)}[kind]
     direction = direction or rng.choice(['blue-to-red', 'blue-to-red', 'red-to-blue'])
@@ -573,15 +618,25 @@ def gen_filter_job(ctx, small, direction=None, wave=None, cover=None, dtype=None
     job = {'dtype': dtype or ('d' if small else rng.choice(['d', 'd', 'd', 'f4'])), 'predicted_edge_sum': predicted,
            'op': 'filter', 'nT': nT, 'nx': nx, 'flux': flux, 'flux2': flux2, 'loglam0': loglam0, 'dloglam': dloglam,
            'wave': wave or rng.choice(['waveimg', 'waveimg', 'wset']), 'toair': (rng.random() < 0.3) and edge is None, 'direction': direction,
-           'a': C.dyadic(rng, -3, 3, 4), 'b': C.dyadic(rng, -3, 3, 4), 'c': C.dyadic(rng, -5, 50, 4),
-           'mask': None, 'return_weights': small, 'cover': kind, 'coq_bands': None if mask_dtype is None else [rng.randrange(5)],
+           'a': C.dyadic(rng, -3, 3, 4), 'b': C.dyadic(rng, -3, 3, 4), 'c': C.dyadic(rng, -5, 50, 4) or 7.25,     # (never 0: a zero result of the constant run means "no overlap")
+           'mask': None, 'return_weights': small, 'cover': kind,
+           'coq_bands': [rng.randrange(5)] if mask_dtype is not None else None if (ctx.thorough or not small) else sorted(rng.sample(range(5), 3)),
            'levels': [C.dyadic(rng, 1, 40, 3) + 3 * t for t in range(nT)]}
-    if ends or mask_dtype is not None or rng.random() < 0.6:
+    if not tiny and (ends or mask_dtype is not None or rng.random() < 0.6):
         md = mask_dtype or rng.choice(MASK_DTYPES)
         ms = mask_style or rng.choice(mask_styles(md))
         mask, kinds = gen_mask(rng, nT, nx, md, ms, ends, row_kinds)
         job['mask'], job['mask_dtype'], job['mask_style'], job['row_kinds'] = mask, md, ms, kinds
         job['junk'] = [rng.choice([1e6, -1e6, C.dyadic(rng, -1000, 1000, 4)]) for _ in range(sum(1 for m in mask if is_bad(m)))]
+    # the spelling of the boolean keyword: omitted / False / 0 / None / numpy.bool_(False) vs True / 1 / numpy.bool_(True)
+    job['toair_token'] = rng.choice(['True', '1', 'npTrue'] if job['toair'] else ['omit', 'False', '0', 'None', 'npFalse'])
+    # memory layout of the three 2-D arguments, independently: C (default), Fortran order, transposed view of an [npix, ntrace] array,
+    # strided columns / rows, negative strides
+    if layout is None and rng.random() < 0.3:
+        layout = {k: rng.choice(['C'] + LAYOUTS) for k in ('flux', 'wave', 'mask')}
+    if layout:
+        job['layout'] = {k: v for k, v in layout.items() if v != 'C' and (k != 'mask' or job['mask'] is not None)
+                         and (k != 'wave' or job['wave'] == 'waveimg')} or None
     return job
 
 
@@ -613,6 +668,20 @@ def check_filter(ctx, viol):
                                    mask_dtype=md, mask_style=ms, row_kinds=kinds))
     for md, ms in (('i4', 'negative'), ('i8', 'signbit'), ('i2', 'neg1'), ('f8', 'float')) + ((('u4', 'topbit'), ('i4', 'mixed')) if ctx.thorough else ()):
         jobs.append(gen_filter_job(ctx, False, None, None, 'full', mask_dtype=md, mask_style=ms, row_kinds=['normal', 'normal']))
+    # degenerate counts: 5, 6 and 7 pixels per trace (the 4-coefficient pixel-width fit is exactly determined at 5)
+    for tiny in (5, 6, 7):
+        jobs.append(gen_filter_job(ctx, True, None, ctx.rng.choice(['waveimg', 'wset']), ctx.rng.choice(['blue', 'red']), tiny=tiny))
+    # every memory layout for each of the three 2-D arguments alone (the other two C-contiguous) and all three together; >= 2 traces whose
+    # wavelength ranges differ, so that a response attached to the wrong pixel shows
+    for n_, lay in enumerate(LAYOUTS):
+        for arg in ('flux', 'wave', 'mask', 'all'):
+            if ctx.thorough or arg in ('wave', 'all') or (n_ + len(arg)) % 2 == 0:
+                jb = gen_filter_job(ctx, arg == 'wave' and n_ < 3, None, 'waveimg', ctx.rng.choice(['full', 'blue', 'red']),
+                                    mask_dtype=ctx.rng.choice(['i4', 'bool', 'u1', 'i8']) if arg in ('mask', 'all') else None,
+                                    row_kinds=['normal'] * ctx.rng.randint(2, 3),
+                                    layout={k: (lay if arg in (k, 'all') else 'C') for k in ('flux', 'wave', 'mask')})
+                jb['coq_bands'] = [ctx.rng.randrange(5)]
+                jobs.append(jb)
     nb = min(C.NPROC, len(jobs))
     outs = C.run_impl_parallel('c19_impl.py', [jobs[k::nb] for k in range(nb)])
     results = [None] * len(jobs)
@@ -620,6 +689,7 @@ def check_filter(ctx, viol):
         for i, r in enumerate(o['results']):
             results[k + i * nb] = r
     terms, meta = [], []
+    layout_cover = {}
     nband = 0
     cover = {}
     mask_cover = {'dtype': {}, 'style': {}, 'row': {}, 'branch': {}, 'indep_checked_bands': 0, 'all_bad_rows_excluded': 0}
@@ -628,7 +698,7 @@ def check_filter(ctx, viol):
         small_in = {k: job[k] for k in ('nT', 'nx', 'loglam0', 'dloglam', 'wave', 'toair', 'a', 'b', 'c', 'cover', 'direction', 'dtype', 'predicted_edge_sum')}
         ej = 1e-9 if job['dtype'] == 'd' else 5e-6      # comparison tolerance: float64 / float32 flux
         small_in['masked'] = job['mask'] is not None
-        small_in.update({k: job.get(k) for k in ('mask_dtype', 'mask_style', 'row_kinds')})
+        small_in.update({k: job.get(k) for k in ('mask_dtype', 'mask_style', 'row_kinds', 'layout', 'toair_token')})
         rep0 = {'kind': 'failing-input', 'input': small_in, 'job': job if job['nx'] <= 60 else None, 'seed_note': 'regenerate with the same VERIF_SEED'}
         if 'err' in r:
             viol('C19:filter_thru:%s' % r['err'], 'filter_thru raised %s: %s' % (r['err'], r.get('msg')), rep0, True)
@@ -639,6 +709,9 @@ def check_filter(ctx, viol):
             continue
         if not r['input_unchanged']:
             viol('C19:filter_thru:input-modified', 'filter_thru modified its flux argument', rep0, True)
+        if r.get('inplace_same') is False:
+            viol('C19:filter_thru:stale-after-inplace-change', 'filter_thru called again on the same flux array after the caller changed it in place (+= 0.5) returns '
+                 '%r, for a fresh copy of that array %r' % tuple(r['inplace_pair']), rep0, True)
         if job['mask'] is not None and r.get('mask_unchanged') is False:
             viol('C19:filter_thru:input-modified', 'filter_thru modified its mask argument (%s)' % job.get('mask_dtype'), rep0, True)
         if job['mask'] is not None:
@@ -669,6 +742,17 @@ def check_filter(ctx, viol):
                              'row %s with %d good pixels%s)' % ('ugriz'[i], t, v1, vj, job['mask_dtype'], job['mask_style'], job['row_kinds'][t], ngood_h,
                                                                  ', negative flags %s' % negs if negs else ''),
                              dict(rep0, trace=t, band='ugriz'[i], values={'f': v1, 'junk in masked pixels': vj}), True)
+        # memory layout: the same arrays as C-contiguous copies give the same band values, bit for bit up to summation order
+        if job.get('layout') and 'res_contig' in r:
+            for k_, v_ in job['layout'].items():
+                layout_cover['%s:%s' % (k_, v_)] = layout_cover.get('%s:%s' % (k_, v_), 0) + 1
+            for t in range(job['nT']):
+                for i in range(5):
+                    v1, vc_ = r['res'][t][i], r['res_contig'][t][i]
+                    if not isnum(v1) or not isnum(vc_) or abs(v1 - vc_) > 10 * ej * (1 + abs(vc_)):
+                        viol('C19:filter_thru:memory-layout', 'band %s of trace %d is %r for the arguments as given (layout %s; C/F-contiguous flags %s) and %r '
+                             'for C-contiguous copies of the same arrays' % ('ugriz'[i], t, v1, job['layout'], r.get('flags'), vc_),
+                             dict(rep0, trace=t, band='ugriz'[i], values={'as given': v1, 'C-contiguous copies': vc_}), True)
         # the same pixels stored in the opposite order give the same band values (C19_filter_band_reversal)
         if 'res_rev' in r:
             for t in range(job['nT']):
@@ -846,6 +930,7 @@ def check_filter(ctx, viol):
                 viol('C19:filter_thru:toair:model', 'toair=True: pixel %d of trace %d: the wavelength used differs from vactoair_Q of the input' % (a_, t),
                      dict(base, kind='broken-correspondence', item='filter_thru toair route vs vactoair_Q'), False)
     return {'bands': nband, 'coq_cases': len(terms) + len(tie_terms), 'coq_s': cc.coq_seconds + cc2.coq_seconds, 'cover': cover,
+            'layout_cover': layout_cover, 'toair_tokens': sorted(set(j['toair_token'] for j in jobs)),
             'mask_cover': mask_cover, 'mask_row_cases': sum(1 for m in tie_meta if m[0] == 'mask'), 'toair_tie_cases': sum(1 for m in tie_meta if m[0] == 'toair'),
             'jobs': len(jobs), 'masked_jobs': sum(1 for j in jobs if j['mask'] is not None),
             'wset_jobs': sum(1 for j in jobs if j['wave'] == 'wset'), 'toair_jobs': sum(1 for j in jobs if j['toair']),
@@ -886,14 +971,18 @@ def check_storage_history(ctx, viol):
     # filter_thru
     nT, nx = 2, 120
     for st, ws, ms in (('f4', None, None), ('>f4', None, 'i4'), ('>f8', '>f8', 'u1'), ('i4', None, None), ('i8', None, 'bool'),
-                       ('>i2', None, None), ('noncontig', 'noncontig', '>i2'), ('fortran', 'fortran', 'i8'), ('d', 'f4', 'bool')):
+                       ('>i2', None, None), ('noncontig', 'noncontig', '>i2'), ('fortran', 'fortran', 'i8'), ('d', 'f4', 'bool'),
+                       ('d', 'layout:F', None), ('d', 'layout:T', 'i4'), ('layout:T', 'layout:T', 'bool'), ('layout:F', 'd', 'i8'),
+                       ('d', 'layout:Frev', None)):
         l0 = round(math.log10(rng.uniform(3000, 3600)) * 4096) / 4096
         dl = round(0.5 / nx * 2 ** 20) / 2 ** 20
         if rng.random() < 0.4:
             l0, dl = l0 + dl * (nx - 1), -dl
         vals = [rng.randint(1, 40) if st in ('i4', 'i8', '>i2') else C.dyadic(rng, 1, 40, 4) for _ in range(nT * nx)]
-        job = {'op': 'storage', 'fn': 'filter_thru', 'storage': st, 'nT': nT, 'nx': nx, 'values': vals, 'loglam0': [l0] * nT,
-               'dloglam': [dl] * nT, 'wave_storage': ws, 'mask': None, 'mask_storage': ms}
+        # (the two traces cover different wavelength ranges)
+        job = {'op': 'storage', 'fn': 'filter_thru', 'storage': st, 'nT': nT, 'nx': nx, 'values': vals, 'loglam0': [l0, l0 + 0.0625][:nT],
+               'dloglam': [dl] * nT, 'wave_storage': ws, 'mask': None, 'mask_storage': ms,
+               'mask_layout': rng.choice(['F', 'T', 'rev', 'C']) if str(ws).startswith('layout') or str(st).startswith('layout') else None}
         if ms is not None:
             job['mask'] = [1 if rng.random() < 0.12 else 0 for _ in range(nT * nx)]
         jobs.append(job)
@@ -957,6 +1046,63 @@ def check_storage_history(ctx, viol):
     return {'values': nvals, 'history_calls': len(hist), 'storage_jobs': len(jobs)}
 
 
+def check_wset_sequence(ctx, viol):
+    """Wavelength solutions given as TRACE SETS: several different ones on the same pixel grid (same function, order, xmin, xmax; different
+    coefficients and x-jump parameters) are used one after the other in one process, each against the waveimg form of the same solution
+    (wavelength image computed by the implementation runner from the coefficients, independently of pydl)."""
+    rng = ctx.rng
+    jobs = []
+    for k in range(ctx.n(4, 20)):
+        nT, nx = rng.randint(1, 3), rng.randint(300, 700)
+        nc = rng.choice([2, 3, 4])
+        sets = []
+        jumps = [None]
+        for _ in range(2):
+            lo = float(rng.randint(int(0.3 * nx), int(0.6 * nx)))
+            width = float(rng.randint(4, 30))
+            val = C.dyadic(rng, 3, 8, 2) * (-1 if (width > 18 and rng.random() < 0.5) else 1)
+            jumps.append([lo, lo + width, val])
+        rng.shuffle(jumps)
+        for j in jumps + [jumps[0], jumps[1]]:
+            coeff = [[3.72 + C.dyadic(rng, -0.02, 0.02, 10), C.dyadic(rng, 0.17, 0.2, 10), C.dyadic(rng, -0.005, 0.005, 12),
+                      C.dyadic(rng, -0.002, 0.002, 12)][:nc] for _ in range(nT)]
+            sets.append({'coeff': coeff, 'jump': j, 'toair': rng.random() < 0.25})
+        flux = [C.dyadic(rng, 1, 30, 4) + 20.0 * (i % nx) / nx for i in range(nT * nx)]
+        jobs.append({'op': 'wsetseq', 'nT': nT, 'nx': nx, 'flux': flux, 'sets': sets})
+    nb = min(C.NPROC, len(jobs))
+    outs = C.run_impl_parallel('c19_impl.py', [jobs[k::nb] for k in range(nb)])
+    results = [None] * len(jobs)
+    for k, o in enumerate(outs):
+        for i, r in enumerate(o['results']):
+            results[k + i * nb] = r
+    ncmp = 0
+    for job, r in zip(jobs, results):
+        small = {'nT': job['nT'], 'nx': job['nx'], 'sets': job['sets'], 'note': 'legendre trace sets with xmin = 0, xmax = nx - 1, used in this order in one process'}
+        if 'err' in r:
+            viol('C19:filter_thru:wset-sequence:%s' % r['err'], 'the sequence of filter_thru(wset=...) calls raised %s: %s' % (r['err'], r.get('msg')),
+                 {'kind': 'failing-input', 'input': small, 'job': job}, True)
+            continue
+        for k, (sset, o) in enumerate(zip(job['sets'], r['results'])):
+            if 'err' in o:
+                viol('C19:filter_thru:wset:%s' % o['err'], 'filter_thru with trace set #%d of the sequence raised %s: %s' % (k, o['err'], o.get('msg')),
+                     {'kind': 'failing-input', 'input': small, 'job': job, 'set_index': k}, True)
+                continue
+            if not o['monotone']:
+                continue
+            for t in range(job['nT']):
+                for i in range(5):
+                    vw, vi = o['wset'][t][i], o['waveimg'][t][i]
+                    ncmp += 1
+                    if not isnum(vw) or not isnum(vi) or abs(vw - vi) > 1e-8 * (1 + abs(vi)):
+                        viol('C19:filter_thru:wset-vs-waveimg',
+                             'trace set #%d of %d used in one process (jump %s; the earlier ones on the same grid had jumps %s): band %s of trace %d is %r with '
+                             'wset=, %r with the wavelength image of the same solution' % (k, len(job['sets']), sset['jump'], [s_['jump'] for s_ in job['sets'][:k]],
+                                                                                          'ugriz'[i], t, vw, vi),
+                             {'kind': 'failing-input', 'input': small, 'job': job, 'set_index': k, 'trace': t, 'band': 'ugriz'[i],
+                              'values': {'wset': vw, 'waveimg': vi}, 'lam_range': o['lam_range']}, True)
+    return {'jobs': len(jobs), 'comparisons': ncmp}
+
+
 def correspond(ctx, proof_ok=True):
     ok, log = C.coq_make(['C19/Model.vo'])
     if not ok:
@@ -970,6 +1116,8 @@ def correspond(ctx, proof_ok=True):
     t = check_filter(ctx, viol)
     t3 = time.time()
     sh = check_storage_history(ctx, viol)
+    ws = check_wset_sequence(ctx, viol)
+    ctx.coverage['wset_sequence'] = ws
     t4 = time.time()
     ctx.coverage['phase_seconds'] = {'wave': round(t1 - t0, 1), 'flux2ab': round(t2 - t1, 1), 'filter_thru': round(t3 - t2, 1),
                                      'filter_thru_coq': round(t['coq_s'], 1), 'storage_history': round(t4 - t3, 1)}
@@ -984,7 +1132,8 @@ def correspond(ctx, proof_ok=True):
                 % (w['cases'], f['n_lemmas'], t['coq_cases']),
         'wave_cases_by_kind': w['kinds'], 'roundtrip_grid_points': w['grid'],
         'flux2ab_values': f['values'], 'flux2ab_enclosure_failures': f['failures'], 'flux2ab_observed_factors': f['factors'],
-        'filter_bands': t['bands'], 'filter_cover': t['cover'], 'filter_mask_cover': t['mask_cover'],
+        'filter_bands': t['bands'], 'filter_cover': t['cover'], 'filter_mask_cover': t['mask_cover'], 'filter_layout_cover': t['layout_cover'],
+        'filter_toair_spellings': t['toair_tokens'], 'flux2ab_keyword_spelling_jobs': f['keyword_spelling_jobs'],
         'filter_mask_row_cases': t['mask_row_cases'], 'filter_toair_tie_cases': t['toair_tie_cases'], 'filter_jobs': t['jobs'], 'filter_masked_jobs': t['masked_jobs'],
         'filter_wset_jobs': t['wset_jobs'], 'filter_toair_jobs': t['toair_jobs'], 'filter_red_to_blue_jobs': t['red_to_blue_jobs'], 'filter_float32_jobs': t['float32_jobs'], 'filter_edge_jobs': t['edge_jobs'],
         'coq_eval_s': round(w['coq_s'] + f['coq_s'] + t['coq_s'], 1),
@@ -1011,8 +1160,14 @@ def replay(ctx, rep):
         print('round trip at', a, '->', out['results'][0])
         return 0
     if 'mode' in inp and 'flux' in inp:
-        out = C.run_impl('c19_impl.py', [{'op': 'flux2ab', 'mode': inp['mode'], 'flux': inp['flux']}])
+        out = C.run_impl('c19_impl.py', [{'op': 'flux2ab', 'mode': inp['mode'], 'flux': inp['flux'], 'kw': inp.get('kw'),
+                                          'positional': inp.get('positional')}])
         print('sdssflux2ab', inp['mode'], inp['flux'], '->', out['results'][0])
+        return 0
+    if rep.get('job') and rep['job'].get('op') == 'wsetseq':
+        out = C.run_impl('c19_impl.py', [rep['job']])['results'][0]
+        for k, o in enumerate(out.get('results', [out])):
+            print('trace set #%d (jump %s):' % (k, rep['job']['sets'][k]['jump']), o)
         return 0
     if rep.get('job'):
         out = C.run_impl('c19_impl.py', [rep['job']])
